@@ -51,7 +51,7 @@ def _assignments(code):
 def jobs(tier):
     js = []
     if tier == "quick":
-        codes = {"C07": ["BMS", "BSM", "BBS", "BIM", "BMM"], "C08": ["BS", "BSS", "BMS", "BSB", "BBS", "BMM"]}
+        codes = {"C07": ["BMS", "BSM", "BBS", "BIM", "BMM", "BLS"], "C08": ["BS", "BSS", "BMS", "BSB", "BBS", "BMM"]}
     else:
         codes = {"C07": ["BMS", "BSM", "BBS", "BIM", "BMM", "BMSS", "BBMS", "BMMS", "BSMB"], "C08": ["BS", "BSS", "BMS", "BSB", "BBS", "BMM", "BSM", "BBSS", "BMSS", "BMMS", "BSBS"]}
     for prop, cs in codes.items():
@@ -103,7 +103,7 @@ def run(S, spec):
     slots = []
     for ch, acc in zip(spec["code"], spec["accs"]):
         table, typ = KIND[ch]
-        s = slot(table, typ, fee="any" if ch in "SM" else "none")
+        s = slot(table, typ, fee="any" if ch in "SML" else "none")
         s["ex"], s["ho"] = ACCOUNTS[acc[0]]
         if ch == "M":
             s["ex2"], s["ho2"] = ACCOUNTS[acc[1]]
